@@ -1256,8 +1256,6 @@ def pattern_or_i32_const_reg(context, tree, c0):
     return d
 
 
-@isa.pattern("reg", "SHRU8(reg, reg)", size=2)
-@isa.pattern("reg", "SHRU16(reg, reg)", size=2)
 @isa.pattern("reg", "SHRU32(reg, reg)", size=2)
 def pattern_shr_u32(context, tree, c0, c1):
     d = context.new_reg(RiscvRegister)
@@ -1265,14 +1263,30 @@ def pattern_shr_u32(context, tree, c0, c1):
     return d
 
 
-@isa.pattern("reg", "SHRI8(reg, reg)", size=2)
+# A right shift moves the high bits of the register into the value. The high
+# bits of a register with an 8 or 16 bit value are not defined, extend first:
+@isa.pattern("reg", "SHRU8(reg, reg)", size=6)
+def pattern_shr_u8(context, tree, c0, c1):
+    d = context.new_reg(RiscvRegister)
+    context.emit(Srl(d, zero_extend_reg(context, c0, 8), c1))
+    return d
+
+
+@isa.pattern("reg", "SHRU16(reg, reg)", size=6)
+def pattern_shr_u16(context, tree, c0, c1):
+    d = context.new_reg(RiscvRegister)
+    context.emit(Srl(d, zero_extend_reg(context, c0, 16), c1))
+    return d
+
+
+@isa.pattern("reg", "SHRI8(reg, reg)", size=6)
 def pattern_shr_i8(context, tree, c0, c1):
     d = context.new_reg(RiscvRegister)
     context.emit(Sra(d, sign_extend_reg(context, c0, 8), c1))
     return d
 
 
-@isa.pattern("reg", "SHRI16(reg, reg)", size=2)
+@isa.pattern("reg", "SHRI16(reg, reg)", size=6)
 def pattern_shr_i16(context, tree, c0, c1):
     d = context.new_reg(RiscvRegister)
     context.emit(Sra(d, sign_extend_reg(context, c0, 16), c1))
